@@ -1,4 +1,5 @@
 import Model.C16
+import Model.C16Partition
 import Generated.C16
 import Proofs.C16
 /-!
@@ -10,10 +11,14 @@ zone-congruent and (up to the side condition below) collision free.
 Everything is unbounded: every recorded random stream, every requested count, every taken set,
 every instance index `n`, every zone index `z < 8`.
 
-What is **not** proved here, and is instead executed on the model and on the implementation and
-cross-checked by the judge on every run (a test, not a theorem): for ids 0..2000 x zones 0..7 and
-every prefix, (a) the side condition of `instances_disjoint_cond` never fires
-(`State.degenerate = false`, tag `modelSideCondFired=no`), (b) the ownership spread is <= 1 %.
+The finite part - for ids 0..2000 x zones 0..7 and every prefix, (a) the side condition of
+`instances_disjoint_cond` never fires (`State.degenerate = false`), (b) the ownership spread is
+<= 1 % - is kernel-checked for ids 0..6 (`finite_table`: a reflective checker over the model, proved
+sound once, evaluated by `decide +kernel` for zone 0 and carried to all zones by `zone_translation`).
+For ids 7..2000 it is **not** proved: it is
+executed on the model and on the implementation and cross-checked by the judge on every run (a
+test, tags `modelSideCondFired=no`, `worstPrefixSpread`). What a registered ownership means is
+proved for all ids (`own_is_sum`, `total_ownership`, `new_instance_share`).
 -/
 namespace PC16
 open C16
@@ -187,12 +192,68 @@ theorem new_instance_share (i z : Nat) (hz : z < maxZonesCount) (s : State)
       x.own ≤ ((totalTokensCount / (i + 2) : Nat) : Int) + 8 ∧
       x.own = (PfC16.ownSum x.tq : Int) := PfC16.new_instance_share hz h hd
 
-/-- the side condition does not fire for the first two instances of zones 0, 3 and 7
-(kernel-evaluated; larger ranges are executed by the oracle, not proved). -/
-theorem side_condition_small :
-    (genUpTo 0 1).map (·.degenerate) = .ok false ∧ (genUpTo 3 1).map (·.degenerate) = .ok false ∧
-    (genUpTo 7 1).map (·.degenerate) = .ok false :=
-  ⟨PfC16.small_z0, PfC16.small_z3, PfC16.small_z7⟩
+/-!
+#### The finite table, kernel-checked for ids 0..`PfC16.tableN` (= 6), all 8 zones, every prefix
+
+`PfC16.checkZone0 N` runs the model's generator for zone 0 and checks every intermediate state;
+`Proofs/C16/T0.lean` evaluates it in the kernel (`decide +kernel`; ~1 GB and ~17 s of kernel time
+per instance - which is what bounds N), `PfC16.checkZone0_sound` turns the result into a statement
+for every `n ≤ N`, and the translation theorem `zone_translation` carries it from zone 0 to every
+zone. Ids 7..2000 remain *executed and cross-checked* by the oracle/judge.
+-/
+
+/-- *Zones are translations of zone 0* (all `n`): if the zone-0 generator for instance `n` never
+produces the token `maxTokenValue = 2^32 - 8` (the only way to reach one of the two corner cases in
+which `calculateNewToken` treats zones differently), then for every zone `z < 8` the generator
+yields exactly the zone-0 tokens shifted by `z` - same donors, same ranges, same ownerships. The
+result for a zone therefore depends on nothing but (instance index, zone index). -/
+theorem zone_translation (n z : Nat) (hz : z < maxZonesCount) (m0 : List (List Nat))
+    (h0 : tokensByInstanceID n 0 = .ok m0) (habs : PfC16.maxTokenValue ∉ m0.flatten) :
+    tokensByInstanceID n z = .ok (m0.map (fun l => l.map (· + z))) :=
+  PfC16.zone_translation hz h0 habs
+
+/-- for every zone `z < 8` and every `n ≤ 6`: the generator for instance `n` succeeds, the side
+condition has not fired, all tokens of instances `0..n` are pairwise different, and every
+instance's registered share is at least 99 % of every other's (spread ≤ 1 %) - for the prefix
+`0..n`, hence for every prefix. -/
+theorem finite_table (z n : Nat) (hz : z < maxZonesCount) (hn : n ≤ PfC16.tableN) :
+    ∃ s, genUpTo z n = .ok s ∧ s.degenerate = false ∧ s.toks.flatten.Nodup ∧
+      ∀ x ∈ s.instQ.toList, ∀ y ∈ s.instQ.toList, 99 * x.own ≤ 100 * y.own := by
+  obtain ⟨s, hs, hd, hsp⟩ := PfC16.finite_table hz hn
+  exact ⟨s, hs, hd, (PfC16.instances_disjoint_iff hz hs).mpr hd, hsp⟩
+
+/-- ... and in that range every zone's tokens are the zone-0 tokens shifted by the zone index. -/
+theorem finite_table_shift (z n : Nat) (hz : z < maxZonesCount) (hn : n ≤ PfC16.tableN) :
+    ∃ m0, tokensByInstanceID n 0 = .ok m0 ∧
+      tokensByInstanceID n z = .ok (m0.map (fun l => l.map (· + z))) :=
+  PfC16.finite_table_shift hz hn
+
+/-- what `Inst.own` means (all `n`): unless the side condition fired, the registered ownership of
+every instance is the total length of the ranges `(prev, token]` of its tokens (these ranges are
+pairwise disjoint, see `PfC16.ItemsInv`). -/
+theorem own_is_sum (n z : Nat) (hz : z < maxZonesCount) (s : State) (h : genUpTo z n = .ok s)
+    (hd : s.degenerate = false) : ∀ x ∈ s.instQ.toList, x.own = (PfC16.ownSum x.tq : Int) :=
+  PfC16.own_is_sum hz n s h hd
+
+/-- the ranges of all tokens of all instances are pairwise disjoint and no range contains another
+item's token (so `prev` is the token's predecessor on the ring and `(prev, token]` is exactly the
+set of keys that token owns) - all `n`, unless the side condition fired. -/
+theorem ranges_exclusive (n z : Nat) (hz : z < maxZonesCount) (s : State) (h : genUpTo z n = .ok s)
+    (hd : s.degenerate = false) :
+    (PfC16.instItems s.instQ.toList).Pairwise (fun a b =>
+      PfC16.arcDisj a b ∧ ¬ PfC16.inArc a.prev a.token b.token ∧ ¬ PfC16.inArc b.prev b.token a.token) :=
+  PfC16.ranges_exclusive hz h hd
+
+/-- the side-condition flag is monotone: not fired for `n` implies not fired for any prefix `k ≤ n`
+(so a statement "for `n`" under the side condition is a statement for every prefix). -/
+theorem side_condition_monotone (n k z : Nat) (hk : k ≤ n) (s s' : State) (h : genUpTo z n = .ok s)
+    (hd : s.degenerate = false) (h' : genUpTo z k = .ok s') : s'.degenerate = false :=
+  PfC16.genUpTo_deg_mono n s h hd k hk s' h'
+
+/-- ... and the registered ownerships of the instances `0..n` always add up to the whole ring. -/
+theorem total_ownership (n z : Nat) (hz : z < maxZonesCount) (s : State) (h : genUpTo z n = .ok s) :
+    PfC16.isum (s.instQ.toList.map (·.own)) = totalTokensCount :=
+  PfC16.total_ownership hz n s h
 
 /-- non-vacuity of the hypotheses above: zone 3, instances 0..1. -/
 example : ∃ s, genUpTo 3 1 = .ok s ∧ s.degenerate = false ∧ s.toks.flatten.Nodup ∧ s.toks.length = 2 := by
@@ -283,5 +344,40 @@ example : ∃ s, genUpTo 0 1 = .ok s ∧ s.degenerate = false := by
   cases hs : genUpTo 0 1 with
   | error e => rw [hs] at h; cases h
   | ok s => rw [hs] at h; simp only [Except.map, Except.ok.injEq] at h; exact ⟨s, rfl, h⟩
+
+/-! ### `PartitionRingDesc.AddPartition` on the descriptor model -/
+
+/-- `AddPartition(id, state, now)` stores an entry whose tokens are a function of `id` alone - the
+sorted 512 tokens of instance `id`, zone 0 - whatever the descriptor, the state and the clock;
+every other partition and all owners are untouched. -/
+theorem add_partition_tokens (d d' : C14.PDesc) (id : Int) (st : Nat) (now : Int)
+    (h : addPartition d id st now = .ok d') :
+    0 ≤ id ∧ ∃ ts, generateAllTokens id.toNat 0 = .ok ts ∧ ts.length = 512 ∧ ts.Pairwise (· ≤ ·) ∧
+      d'.get? id = some { id := id, state := st, stateTs := now, tokens := ts } ∧
+      (∀ j, j ≠ id → d'.get? j = d.get? j) ∧ d'.owners = d.owners := by
+  obtain ⟨h0, ts, hts, h1, h2, h3⟩ := PfC16.addPartition_ok h
+  obtain ⟨e, l, p⟩ := partition_tokens _ _ hts
+  exact ⟨h0, ts, e, l, p, h1, h2, h3⟩
+
+/-- hence two descriptors, states, clocks: same id, same tokens. -/
+theorem add_partition_pure (d1 d2 d1' d2' : C14.PDesc) (id : Int) (s1 s2 : Nat) (n1 n2 : Int)
+    (h1 : addPartition d1 id s1 n1 = .ok d1') (h2 : addPartition d2 id s2 n2 = .ok d2') :
+    (d1'.get? id).map (·.tokens) = (d2'.get? id).map (·.tokens) := by
+  obtain ⟨_, t1, e1, g1, _⟩ := PfC16.addPartition_ok h1
+  obtain ⟨_, t2, e2, g2, _⟩ := PfC16.addPartition_ok h2
+  rw [e1] at e2; cases e2
+  rw [g1, g2]; rfl
+
+/-- it succeeds for every non-negative id whose tokens can be generated (non-vacuity: id 1). -/
+theorem add_partition_total (d : C14.PDesc) (id : Int) (st : Nat) (now : Int) (hid : 0 ≤ id)
+    (ts : List Nat) (hts : partitionTokens id.toNat = .ok ts) :
+    ∃ d', addPartition d id st now = .ok d' := PfC16.addPartition_total d st now hid hts
+
+example : ∃ d', addPartition {} 1 2 1700000000 = .ok d' := by
+  obtain ⟨s, hs, _⟩ := PfC16.finite_table (z := 0) (n := 1) (by decide) (by decide)
+  have ea : generateAllTokens 1 0 = .ok (sortTokens (s.toks.getD 1 [])) := by
+    unfold generateAllTokens tokensByInstanceID; rw [hs]; rfl
+  obtain ⟨ts, hts⟩ := spread_gen_total 1 0 512 [] _ ea (by decide)
+  exact add_partition_total {} 1 2 1700000000 (by decide) ts hts
 
 end PC16
